@@ -693,7 +693,7 @@ func (m *Mined) editOnce(t *rapid.T, needMarker bool) (string, bool) {
 		}
 	})
 	mk := len(m.Edits)
-	choices := []string{"rename", "rename", "lit", "wrap", "add-stmt", "add-arg"}
+	choices := []string{"rename", "rename", "lit", "wrap", "add-stmt", "add-arg", "wrap-binop"}
 	if m.Opts.DupBias && !needMarker && len(holeSlots) > 0 {
 		choices = append(choices, "dup-hole", "dup-hole", "dup-hole", "add-hole-arg", "add-hole-arg")
 	}
@@ -742,6 +742,18 @@ func (m *Mined) editOnce(t *rapid.T, needMarker bool) (string, bool) {
 		}
 		m.Plus = &ast.CallExpr{Fun: markerIdent(mk), Args: []ast.Expr{m.Plus.(ast.Expr)}}
 		return "wrap-root", true
+	case "wrap-binop":
+		// the whole replacement becomes a binary expression: wherever the
+		// instance was an operand, the output needs parentheses
+		if m.Kind != ref.PExpr {
+			return "", false
+		}
+		if _, isType := m.Plus.(*ast.ArrayType); isType {
+			return "", false
+		}
+		ops := []token.Token{token.ADD, token.MUL, token.LAND, token.EQL, token.SHL}
+		m.Plus = &ast.BinaryExpr{X: m.Plus.(ast.Expr), Op: ops[rapid.IntRange(0, len(ops)-1).Draw(t, "binop")], Y: markerIdent(mk)}
+		return "wrap-binop", true
 	case "wrap-sub":
 		if len(exprSlots) == 0 {
 			return "", false
